@@ -955,6 +955,7 @@ class SV:
         if key not in c.opaque:
             n = c.fresh('floor', 'I')
             c.opaque[key] = n
+            c.__dict__.setdefault('floor_list', []).append(SV(n))
             c.axioms.append(z3.And(z3.ToReal(n) <= st, st < z3.ToReal(n) + 1))
         return SV(c.opaque[key])
     def __ceil__(s): return -((-s).floor())
@@ -1771,10 +1772,16 @@ class NPShim(types.ModuleType):
         if a.dtype == object:
             if _has_sym(a): return a.view(SA)
             try:
-                return _np.array(a.tolist(), dtype=dtype)
+                a = _np.array(a.tolist(), dtype=dtype)
             except (ValueError, TypeError):
                 return a
-        return _np.array(a, dtype=dtype, **k)
+        else:
+            a = _np.array(a, dtype=dtype, **k)
+        # np.array always makes a new array: in symbolic mode float arrays are created as object arrays so that
+        # later stores of symbolic values succeed (the values are the same Python floats)
+        if symbolic_mode() and a.dtype.kind == 'f' and a.size <= 4096:
+            return a.astype(object).view(SA)
+        return a
     def _mk(self, f, *a, dtype=None, **k):
         if symbolic_mode() and self._isfloat(dtype):
             r = f(*a, dtype=float, **k).astype(object)
